@@ -122,3 +122,60 @@ Example c05_example_d15 :
   existsb (fun e => match e with EHand 2 0 _ _ _ _ => true | _ => false end) (List.concat (map o_events (trace cfg ops))) = false
   /\ mon_C05 cfg ops (trace cfg ops) = true.
 Proof. vm_compute. auto. Qed.
+
+(* ------------------------------------------------------------------------------------------------
+   M-CONN: the REAL connection type behind the pool (client/conn/connection.rs HttpConnection) against
+   the contract the pool model assumes of a PoolableConnection (anchor "is_open reflects the sender's
+   readiness"; WhenReady::drop pushes only if is_open()).  Model conn/Model.v (hyper's SendRequest
+   readiness is oracle O1, transcribed as observed and compared on every run of this check by
+   harness/src/bin/conn.rs), contract monitor conn/Spec.v, proofs conn/Proofs.v, link to the pool
+   model's flags conn/PoolLink.v.  Quantification: both protocols, EVERY sequence of operations (send /
+   server answers keep-alive / answers `Connection: close` / peer drops / graceful shutdown / settle). *)
+From HD Require conn.Model conn.Spec conn.Proofs conn.PoolLink.
+
+(* the contract monitor (sharing constant, open => ready, closed absorbing, busy HTTP/1 never open, a
+   reuse()d handle sees the same, version rewritten) accepts the model's observations of every history *)
+Theorem c05_conn_monitor : forall (p : http.Model.proto) ops,
+  conn.Spec.mon_conn p ops (conn.Model.hc_trace p ops) = true.
+Proof. exact conn.Proofs.mon_conn_holds. Qed.
+Print Assumptions c05_conn_monitor.
+
+(* is_open = true only if poll_ready = Ready(Ok): WhenReady completes and its is_open() test passes only
+   for a usable connection *)
+Theorem c05_conn_open_ready : forall s,
+  conn.Model.hc_open s = true -> conn.Model.hc_rdy s = conn.Model.PReadyOk.
+Proof. exact conn.Proofs.open_ready. Qed.
+Print Assumptions c05_conn_open_ready.
+
+(* once closed (the peer dropped the connection, or an HTTP/1 response with `Connection: close` was
+   delivered, or a graceful shutdown ran its course) the connection reports is_open = false and
+   poll_ready = Ready(Err) after every further operation sequence *)
+Theorem c05_conn_closed_forever :
+  (forall s, conn.Model.hc_dead (conn.Model.hc_step s conn.Model.HPeerDrop) = true)
+  /\ (forall s, conn.Model.h_proto s = http.Model.PH1 ->
+        conn.Model.h_ok (conn.Model.hc_step s conn.Model.HCloseResp) = S (conn.Model.h_ok s) ->
+        conn.Model.hc_dead (conn.Model.hc_step s conn.Model.HCloseResp) = true)
+  /\ (forall s ops, conn.Model.hc_dead s = true ->
+        let s' := fold_left conn.Model.hc_step ops s in
+        conn.Model.hc_open s' = false /\ conn.Model.hc_rdy s' = conn.Model.PReadyErr).
+Proof.
+  exact (conj conn.Proofs.peer_drop_closes (conj conn.Proofs.close_response_closes conn.Proofs.dead_forever)).
+Qed.
+Print Assumptions c05_conn_closed_forever.
+
+(* an HTTP/1 connection with an exchange in flight reports is_open = false and poll_ready = Pending: it
+   can neither be pushed into the idle list nor handed to a waiter as open *)
+Theorem c05_conn_h1_busy : forall s,
+  conn.Model.h_proto s = http.Model.PH1 -> conn.Model.hc_dead s = false -> conn.Model.inflight s <> 0 ->
+  conn.Model.hc_open s = false /\ conn.Model.hc_rdy s = conn.Model.PPending.
+Proof. exact conn.Proofs.h1_busy. Qed.
+Print Assumptions c05_conn_h1_busy.
+
+(* what the pool model computes from its flags (pool.Model.is_open; the WhenReady classification of
+   pool.Model.run_task) is what the real connection's model reports, under the abstraction
+   share := HTTP/2, open := not closed, ready := no exchange in flight *)
+Theorem c05_conn_pool_flags : forall s,
+  (forall ps c, get_conn ps c = Some (conn.PoolLink.abs s) -> is_open ps c = conn.Model.hc_open s)
+  /\ conn.PoolLink.pool_rdy (conn.PoolLink.abs s) = conn.Model.hc_rdy s.
+Proof. intros s. exact (conj (conn.PoolLink.link_is_open s) (conn.PoolLink.link_poll_ready s)). Qed.
+Print Assumptions c05_conn_pool_flags.
